@@ -90,6 +90,8 @@ fn crypto_coin_draw_integers_bounded() {
             assert!(v[i] < d);
             assert!(v[i] as u64 == stub_mwi(s2, i as u64 + 1) & (d as u64 - 1));
             assert!(sv(&c.seed) == s2);
+            // the counter counts the values drawn since the reseed (later draws must not repeat them)
+            assert!(c.counter == n as u64);
         },
         Err(_) => assert!(false),
     }
